@@ -40,6 +40,18 @@ def run(res, replay=None):
             s['migration_rates'][ks[1]] = {'0.0': 2.0}
             s['recombination_rate'] = rng.choice([0.5, 1.0])
             specs.append(s)
+        # two loci, SOME lineages initially unlinked, samples in both demes (several states match the start configuration)
+        for i in range(2 if res.tier == 'quick' else 6):
+            names = rng.choice([['b', 'a'], ['z', 'y'], ['pop_1', 'pop_0']])
+            s = gen.rand_spec(rng, n_total=3, n_demes=2, n_epochs=1, names=names, loci=2, end_time='always')
+            s['n_items'] = [[names[0], 2], [names[1], 1]] if i % 2 == 0 else [[names[0], 1], [names[1], 2]]
+            ks = list(s['migration_rates'])
+            s['migration_rates'][ks[0]] = {'0.0': 0.25}
+            s['migration_rates'][ks[1]] = {'0.0': 1.0}
+            s['pop_sizes'] = {names[0]: {'0.0': 1.0}, names[1]: {'0.0': 4.0}}
+            s['recombination_rate'] = 0.5
+            s['n_unlinked'] = rng.choice([1, 2])
+            specs.append(s)
     cases = []
     for s in specs:
         pops = [p for p, _ in s['n_items']]
